@@ -250,6 +250,123 @@ def check_facade(rng, counters, classes):
     return vio
 
 
+def check_facade_twin(rng, counters, classes):
+    """ISO9660 / Joliet / UDF facades: the same random history through the facade and through the
+    keyword API of a second object (virtual clock and seeds reset before each run) must give the
+    same query results and byte-identical images: a facade neither fails nor addresses another
+    entry than the plain call with the same path."""
+    import pycdlib
+    from harness import env
+    from harness.gen import Gen
+    vio = []
+    which = rng.choice(['iso', 'joliet', 'udf'])
+    level = rng.choice([1, 3, 4])
+    kw = {'interchange_level': level}
+    if which == 'joliet':
+        kw['joliet'] = 3
+    if which == 'udf':
+        kw['udf'] = '2.60'
+    key = {'iso': 'iso_path', 'joliet': 'joliet_path', 'udf': 'udf_path'}[which]
+    seed = rng.randrange(1 << 30)
+    g = Gen(seed)
+
+    def name(isdir):
+        if which == 'iso':
+            return g.iso_dir_name(level) if isdir else g.iso_file_name(level)
+        return g.uni_name() if which == 'joliet' else g.udf_name()
+    # the program: generated once, replayed twice
+    prog = []
+    dirs, files = ['/'], []
+    for _ in range(rng.choice([4, 10, 20])):
+        x = rng.random()
+        if x < 0.35 or not files:
+            par = rng.choice(dirs)
+            if which == 'iso' and par.count('/') >= 6:
+                par = '/'
+            pth = (par if par != '/' else '') + '/' + name(False)
+            prog.append(('add_fp', pth, rng.choice([0, 1, 2048, 5000]), rng.randrange(1 << 30)))
+            files.append(pth)
+        elif x < 0.55:
+            par = rng.choice(dirs)
+            if which == 'iso' and par.count('/') >= 6:
+                par = '/'
+            pth = (par if par != '/' else '') + '/' + name(True)
+            prog.append(('add_directory', pth))
+            dirs.append(pth)
+        elif x < 0.65 and files:
+            pth = files.pop(rng.randrange(len(files)))
+            prog.append(('rm_file', pth))
+        elif x < 0.7 and len(dirs) > 1:
+            pth = dirs[-1]
+            if not any(f.startswith(pth + '/') for f in files) and not any(d.startswith(pth + '/') for d in dirs):
+                dirs.pop()
+                prog.append(('rm_directory', pth))
+        elif x < 0.8 and which == 'udf':
+            prog.append(('add_symlink', '/' + name(False), rng.choice(['a', '../b', '/x/y'])))
+        elif x < 0.9:
+            prog.append(('read', rng.choice(files)))
+        else:
+            prog.append(('list', rng.choice(dirs)))
+    prog.append(('walk', '/'))
+
+    def run(use_facade):
+        env.reset(seed)
+        iso = pycdlib.PyCdlib()
+        iso.new(**kw)
+        fac = {'iso': iso.get_iso9660_facade, 'joliet': iso.get_joliet_facade, 'udf': iso.get_udf_facade}[which]() if use_facade else None
+        log = []
+        keep = []
+        for st in prog:
+            try:
+                if st[0] == 'add_fp':
+                    fp = io.BytesIO(random.Random(st[3]).randbytes(st[2]))
+                    keep.append(fp)
+                    r = fac.add_fp(fp, st[2], st[1]) if fac else iso.add_fp(fp, st[2], **{key: st[1]})
+                elif st[0] == 'add_directory':
+                    r = fac.add_directory(st[1]) if fac else iso.add_directory(**{key: st[1]})
+                elif st[0] == 'rm_file':
+                    r = fac.rm_file(st[1]) if fac else iso.rm_file(**{key: st[1]})
+                elif st[0] == 'rm_directory':
+                    r = fac.rm_directory(st[1]) if fac else iso.rm_directory(**{key: st[1]})
+                elif st[0] == 'add_symlink':
+                    r = fac.add_symlink(st[1], st[2]) if fac else iso.add_symlink(udf_symlink_path=st[1], udf_target=st[2])
+                elif st[0] == 'read':
+                    b = io.BytesIO()
+                    fac.get_file_from_iso_fp(b, st[1]) if fac else iso.get_file_from_iso_fp(b, **{key: st[1]})
+                    r = hashlib.sha1(b.getvalue()).hexdigest()
+                elif st[0] == 'list':
+                    lst = fac.list_children(st[1]) if fac else iso.list_children(**{key: st[1]})
+                    r = sorted(iso.full_path_from_dirrecord(c) for c in lst if c is not None and not (hasattr(c, 'is_dot') and (c.is_dot() or c.is_dotdot())) and not (which == 'udf' and getattr(c, 'isparent', False)))
+                else:
+                    w = fac.walk(st[1]) if fac else iso.walk(**{key: st[1]})
+                    r = [(a, sorted(b_), sorted(c)) for a, b_, c in w]
+                log.append(('ok', repr(r)[:300]))
+            except Exception as e:
+                log.append((type(e).__name__, str(e)[:100]))
+        out = io.BytesIO()
+        try:
+            iso.write_fp(out)
+            img = out.getvalue()
+        except Exception as e:
+            img = ('write-raises', type(e).__name__, str(e)[:100])
+        iso.close()
+        return log, img
+    import hashlib
+    la, ia = run(False)
+    lb, ib = run(True)
+    counters['facade_twin_runs'] = counters.get('facade_twin_runs', 0) + 1
+    counters['facade_twin_steps'] = counters.get('facade_twin_steps', 0) + len(prog)
+    for k_, (a, b) in enumerate(zip(la, lb)):
+        if a != b:
+            vio.append({'key': 'facade:%s:%s:differs' % (which, prog[k_][0]), 'detail': 'level %d step %d %r: keyword API %r, facade %r' % (level, k_, prog[k_][:2], a, b)})
+            break
+    else:
+        if ia != ib:
+            vio.append({'key': 'facade:%s:image-differs' % which, 'detail': 'level %d: %d steps, images differ (%s)' % (level, len(prog), 'lengths %d/%d' % (len(ia), len(ib)) if isinstance(ia, bytes) and isinstance(ib, bytes) else (ia if not isinstance(ia, bytes) else ib))})
+    classes.add((level, 'facade-twin', which))
+    return vio
+
+
 def check_tool_collisions(rng, counters, classes):
     vio = []
     try:
@@ -300,6 +417,8 @@ def run_case(i, seed, tier):
         vio += check_facade(rng, counters, classes)
     for _ in range(4):
         vio += check_tool_collisions(rng, counters, classes)
+    for _ in range(3):
+        vio += check_facade_twin(rng, counters, classes)
     vio = c01.dedup(vio)
     for v in vio:
         v.setdefault('replay', {})
